@@ -404,3 +404,74 @@ PLANS["C11"]["steps"] = lambda tier, seed: _c11b(tier, seed) + [http_live("acces
 _c12b = PLANS["C12"]["steps"]
 PLANS["C12"]["steps"] = lambda tier, seed: _c12b(tier, seed) + [http_live("corpus_http", "corpus", ["--cases", "400" if tier == "quick" else "4000", "--socket_workers", "2", "--swarm_workers", "2"]),
                                                                 udp_live("corpus_udp_mio", "contract", "mio", ["--workers", "2", "--datagrams", "1500"])]
+
+
+def ws_live(name, scenario, extra=None, **kw):
+    s = {"name": name, "bin": "ws_live", "args": ["--scenario", scenario] + (extra or []), "crash_is_violation": True, "timeout_s": 900}
+    s.update(kw)
+    return s
+
+
+def c17_steps(tier):
+    if tier == "quick":
+        return [ws_live("routing_1x1", "routing", ["--socket_workers", "1", "--swarm_workers", "1", "--ops", "250"]),
+                ws_live("routing_2x2", "routing", ["--socket_workers", "2", "--swarm_workers", "2", "--ops", "350"])]
+    out = []
+    for s in (1, 2, 3):
+        for w in (1, 2, 3):
+            out.append(ws_live("routing_%dx%d" % (s, w), "routing", ["--socket_workers", str(s), "--swarm_workers", str(w), "--ops", "3000", "--connections", "10" if s < 3 else "20", "--rounds", "12"]))
+    out.append(ws_live("corpus", "corpus", ["--cases", "3000"]))
+    return out
+
+
+PLANS["C17"] = {
+    "title": "WebTorrent tracker routes to the right connection; closed ones leave no peers",
+    "level": "exploration",
+    "engine": "live",
+    "technique": "offline checker over per-connection WebSocket message logs (independent JSON reader) against the ws reference model with connection ownership; conservation check at quiescence for concurrent phases; hook counters decide when a closure has been processed",
+    "packages": ["vws"],
+    "parallel": 4,
+    "steps": lambda tier, seed: c17_steps(tier),
+    "min_evaluations": {"quick": 400, "thorough": 20000},
+    "assumptions": ["clients read promptly (fewer than 16 unread messages per connection) so that the tracker's documented back-pressure drops cannot be mistaken for loss",
+                    "a second peer id is 'refused with an error' if an error message arrives or the tracker drops the connection (the message races with the teardown; delivery is reported as an observation), and never an announce reply",
+                    "an empty info-hash list may be answered by an error or an empty scrape reply"],
+    "level_text": "Exploration on the live tracker: 10-20 hand-written WebSocket connections (IPv4 and ::1, text and binary frames) on 1-3 socket workers run random sequences of announces (own peer id, somebody else's peer id, a second peer id), offers, answers to outstanding and to invented offers, scrapes (absent / empty / single / list, spanning swarm workers), orderly closes and TCP resets; after each operation (fenced by a scrape travelling the same path) every connection's new messages are classified: offers and answers must arrive at exactly the connection that created the addressed peer, every non-ignored announce and every scrape gets exactly one reply, ignored announces get nothing, and after each close an observer's scrape must equal the reference model. A concurrent phase checks conservation (no offer to a non-member, to its sender, or twice) and scrape totals at quiescence. The accept distribution over socket workers is reported; a multi-worker run in which all connections landed on one worker is inconclusive.",
+    "level_note": "Trusted: the WebSocket client, vcore::json, vcore::wsmodel; counters ws.cleanup_done / ws.swarm.connection_closed_handled.",
+    "design_ref": "3/C17",
+}
+
+PLANS["C03"] = {
+    "title": "Stored peer addresses are the real source addresses",
+    "level": "exploration",
+    "engine": "live",
+    "technique": "runtime monitors at three layers: canonicalisation functions vs std classification, reverse-proxy header extraction vs reference rule, and live trackers observed by second clients over plain, dual-stack and IPv6 sockets",
+    "packages": ["vproto", "vudp", "vhttp", "vws"],
+    "parallel": 6,
+    "steps": lambda tier, seed: [{"name": "addr_canon", "bin": "addr_canon", "args": []},
+                                 udp_live("udp_addr_dual_mio", "address", "mio", ["--sockets", "dual"]),
+                                 http_live("http_addr", "address", []),
+                                 http_live("http_addr_proxy", "address", ["--proxy"]),
+                                 ws_live("ws_addr", "address", [])] + (
+        [udp_live("udp_addr_dual_uring", "address", "uring", ["--sockets", "dual"])] if tier == "quick" else
+        [udp_live("udp_addr_%s_%s" % (m, be), "address", be, ["--sockets", m, "--rounds", "40", "--workers", "2"]) for m in ("dual", "v4only", "v6only") for be in ("mio", "uring")]
+        + [http_live("http_addr_2x2", "address", ["--socket_workers", "2", "--swarm_workers", "2", "--rounds", "40"]), http_live("http_addr_proxy_2x2", "address", ["--proxy", "--socket_workers", "2", "--swarm_workers", "2", "--rounds", "40"]),
+           ws_live("ws_addr_3x3", "address", ["--socket_workers", "3", "--swarm_workers", "3", "--rounds", "40"])]
+        + swarm_steps("udp_swarm", "udp_swarm", "quick", quick_budget=20) + swarm_steps("http_swarm", "http_swarm", "quick", quick_budget=20)),
+    "min_evaluations": {"quick": 100000, "thorough": 300000},
+    "assumptions": ["only loopback source addresses can be produced (127.0.0.0/8, ::1 and fd00::/8 addresses added to lo)", "in reverse-proxy mode the last header value is written by the proxy and is syntactically valid (the tracker panics by design otherwise)", "TLS paths are not exercised"],
+    "level_text": "Exploration: (1) canonicalisation code of all three trackers on boundary address forms vs std; (2) reverse-proxy header extraction on generated header blocks vs 'last value of last occurrence, trimmed'; (3) live: IPv4 hosts announce through the plain socket and through the dual-stack socket with arbitrary in-request ip fields (udp ip_address, http ip= / ipv6= keys), IPv6 hosts through ::1 and added fd00:: addresses; observers on each socket must be handed exactly the (real source ip, announced port) pairs, one and the same IPv4 peer for a host reached both ways, and scrapes through each socket type see the right family; ipv4-only / ipv6-only / dual-stack socket configurations, mio and io_uring, http with a harness-side proxy, ws family classification.",
+    "level_note": "Trusted: std's to_ipv4_mapped, the harness's wire decoders.",
+    "design_ref": "3/C03",
+}
+
+_c08b = PLANS["C08"]["steps"]
+PLANS["C08"]["steps"] = lambda tier, seed: _c08b(tier, seed) + ([ws_live("ownership_live_2x2", "routing", ["--socket_workers", "2", "--swarm_workers", "2", "--ops", "300"])] if tier == "quick" else
+                                                                 [ws_live("ownership_live_%dx%d" % (s, w), "routing", ["--socket_workers", str(s), "--swarm_workers", str(w), "--ops", "2000"]) for s in (1, 2, 3) for w in (1, 2, 3)])
+PLANS["C08"]["level_text"] += " The two ownership-at-close clauses (an impostor's announce is ignored, gets no reply and removes nothing when the impostor's connection closes) are decided on the live tracker by the C17 engine, where the real socket workers do the bookkeeping."
+_c10c = PLANS["C10"]["steps"]
+PLANS["C10"]["steps"] = lambda tier, seed: _c10c(tier, seed) + [ws_live("expiry_ws", "expiry", [])]
+_c11c = PLANS["C11"]["steps"]
+PLANS["C11"]["steps"] = lambda tier, seed: _c11c(tier, seed) + [ws_live("access_ws_allow", "access", [])] + ([ws_live("access_ws_deny", "access", ["--mode", "deny"])] if tier == "thorough" else [])
+_c12c = PLANS["C12"]["steps"]
+PLANS["C12"]["steps"] = lambda tier, seed: _c12c(tier, seed) + [ws_live("corpus_ws", "corpus", ["--cases", "500" if tier == "quick" else "5000"])]
